@@ -575,14 +575,14 @@ PROPS["C16"] = {
 
 PROPS["C08"] = {
     "level": "model_checking",
-    "claim": "Bounded symbolic model checking of the real formatter (format.Source: parser, printer state machine, text/tabwriter) on every source of at most 3 bytes: whenever the source parses, formatting succeeds, the output parses, the output's syntax tree equals the input's (same nodes in the same shape; identifiers, string literals, operators, field constraints, attributes equal; number literals equal by kind and value; the same comment groups with the same text, doc/line flags and position index on the same nodes), and formatting the output again returns it byte for byte. This is a thin claim: sources this short contain few layout decisions.",
-    "note": "Trusted: go/ssa, the executor, z3, the decimal contract model (only to compare number literals by value). Outside: sources longer than 3 bytes - so multi-field structs, blank-line and comment placement, alignment sections, the -s simplifications, import sorting, cmd/cue fmt itself.",
-    "technique": "bounded symbolic execution of format.Source and parser.ParseFile from go/ssa on symbolic source bytes; syntax trees compared node by node, output compared byte by byte, decided by z3 and the byte-domain pre-solver",
+    "claim": "Bounded symbolic model checking of the real formatter as configured by default (format.Source: parser, then - the formatv2 experiment being on by default at this language version - the internal/pretty document printer and its renderer; the legacy printer in cue/format/node.go and printer.go is not on this path and is not executed) on every source of at most 3 bytes: whenever the source parses, formatting succeeds, the output parses, the output's syntax tree equals the input's (same nodes in the same shape; identifiers, string literals, operators, field constraints, attributes equal; number literals equal by kind and value; the same comment groups with the same text, doc/line flags and position index on the same nodes), and formatting the output again returns it byte for byte. This is a thin claim: sources this short contain few layout decisions.",
+    "note": "Trusted: go/ssa, the executor, z3, the decimal contract model (only to compare number literals by value). Outside: sources longer than 3 bytes - so multi-field structs, blank-line and comment placement, alignment sections, the -s simplifications, import sorting, cmd/cue fmt itself; the legacy printer (CUE_EXPERIMENT=formatv2=0).",
+    "technique": "bounded symbolic execution of format.Source (internal/pretty) and parser.ParseFile from go/ssa on symbolic source bytes; syntax trees compared node by node, output compared byte by byte, decided by z3 and the byte-domain pre-solver",
     "bounds": {
         "quick": "every byte string of length <= 3 (51 976 paths, 3 208 of them parse)",
         "thorough": "the same",
     },
-    "outside": ["sources > 3 bytes", "format.Simplify and other options", "import handling", "cue fmt command (file handling, --check, --diff)"],
+    "outside": ["sources > 3 bytes", "legacy (v1) printer", "format.Simplify and other options", "import handling", "cue fmt command (file handling, --check, --diff)"],
     "assumptions": APD_ASSUMPTIONS,
     "runs": [
         {
